@@ -4,7 +4,7 @@
 (* this all histories of every length. With Export it prints the reference transition     *)
 (* graph and every state's observer outputs for the conformance harness.                   *)
 EXTENDS Naturals, Sequences, FiniteSets, TLC, Json
-CONSTANTS Keys, Vals, Export, DeleteAbsentDropsLast, FilterRangesWhileDeleting
+CONSTANTS Keys, Vals, Export, DeleteAbsentDropsLast, FilterRangesWhileDeleting, FilterDeletesBeforePanic
 R == INSTANCE OMap
 I == INSTANCE OMapImpl
 
@@ -12,6 +12,7 @@ Swap(v) == IF v = 1 THEN 2 ELSE IF v = 2 THEN 1 ELSE v
 SwapKV(k, v) == Swap(v)
 KeepA(k, v) == k = "a"
 KeepOne(k, v) == v = 1
+DropA(k, v) == k # "a"
 Preds == {"keepA", "keepOne"}
 P(p, k, v) == IF p = "keepA" THEN KeepA(k, v) ELSE KeepOne(k, v)
 
@@ -19,6 +20,7 @@ Ops == {[op |-> "Set", k |-> k, v |-> v] : k \in Keys, v \in Vals}
   \cup {[op |-> "Update", k |-> k, v |-> 0] : k \in Keys}
   \cup {[op |-> "Delete", k |-> k, v |-> 0] : k \in Keys}
   \cup {[op |-> "Filter", k |-> p, v |-> 0] : p \in Preds}
+  \cup {[op |-> "FilterPanic", k |-> "dropAPanicB", v |-> 0]}            \* the callback refuses "a" and panics on "b"
   \cup {[op |-> "Map", k |-> f, v |-> 0] : f \in {"swap", "failB"}}
 
 ApplyR(m, o) ==
@@ -26,12 +28,14 @@ ApplyR(m, o) ==
     [] o.op = "Update" -> R!Update(m, o.k, Swap)
     [] o.op = "Delete" -> R!Delete(m, o.k)
     [] o.op = "Filter" -> R!Filter(m, LAMBDA k, v : P(o.k, k, v))
+    [] o.op = "FilterPanic" -> R!FilterPanic(m, DropA, {"b"})
     [] o.op = "Map" -> R!MapF(m, SwapKV, IF o.k = "failB" THEN {"b"} ELSE {})
 ApplyI(m, o) ==
   CASE o.op = "Set" -> I!ISet(m, o.k, o.v)
     [] o.op = "Update" -> I!IUpdate(m, o.k, Swap)
     [] o.op = "Delete" -> I!IDelete(m, o.k)
     [] o.op = "Filter" -> I!IFilter(m, {kv \in Keys \X (Vals \cup {0}) : P(o.k, kv[1], kv[2])})
+    [] o.op = "FilterPanic" -> I!IFilterPanic(m, {kv \in Keys \X (Vals \cup {0}) : DropA(kv[1], kv[2])}, {"b"})
     [] o.op = "Map" -> I!IMap(m, [v \in Vals \cup {0} |-> Swap(v)], IF o.k = "failB" THEN {"b"} ELSE {})
 
 VARIABLES r, i
